@@ -98,7 +98,7 @@ def time_two_field_roundtrip(P):
 
 
 @lemma({"hh": int, "mi": int, "ss": int, "f": int}, params=lambda tier, seed: [[p, a, b] for p in ("iso", "long-iso") for a in range(0, 24, 6) for b in ((0, 1) if tier == "thorough" else (0,))],
-       budget=300, thorough_budget=1500, per_path=40,
+       budget=300, thorough_budget=600, per_path=40,
        bounds="every LocalTime (nanosecond precision; partitioned by 6-hour block and by zero / non-zero fraction) under the built-in "
               "extended ISO patterns (HH:mm:ss;FFFFFFFFF and the 9-digit long form): parse(format(t)) == t")
 def time_iso_roundtrip(P):
